@@ -72,7 +72,7 @@ class C04(TraceCheck):
     rule = ("histories of region assignments on a real FSArray: shapes 0..3 x 0..4 (constructor formatting none / bg), forms "
             "a[r0:r1, c0:c1] = block, a[r, c] = [x], a[r0:r1] = block, regions inside, straddling and beyond the height "
             "(r in 0..rows+2, c in 0..cols) and hanging over the right edge (column stops up to 2*cols+2), bounds also written as negative numbers and omitted (None), blocks with the right and wrong number of rows, rows shorter/equal/longer than the "
-            "region, empty rows, given as list of str/FmtStr, as FSArray or as the target array itself; rows holding zero-width characters with every region boundary around them; after every step the full row list is recorded; "
+            "region, empty rows, given as list of str/FmtStr, as FSArray or as the target array itself, or as one block object the application keeps, edits in place and assigns again; rows holding zero-width characters with every region boundary around them; after every step the full row list is recorded; "
             "region and row reads are interleaved; fsarray(strings, width) construction. Sources: TLC-generated behaviours "
             "(MC_FSArray GenSpec) + all single assignments on 1x2/2x2/2x3 arrays pre-filled two ways + seeded random "
             "histories. distinct_nontrivial = distinct (shape, region, block row lengths, outcome) assignments")
@@ -175,6 +175,22 @@ class C04(TraceCheck):
                             yield {"h": h, "w": w, "fmt": (r0 + nrows) % 2, "steps": pre + [
                                 {"k": "assign", "r0": r0, "r1": r0 + nrows, "c0": c0, "c1": c1, "block": [], "bk": "self", "form": "slice2"},
                                 {"k": "read", "r0": 0, "r1": 3 * h + 3, "c0": 0, "c1": w}]}
+        # ONE block object kept by the application (a list of rows / an FSArray), updated in place and assigned again to
+        # the same region - the second time with other rows, a too long row, another number of rows; also with another
+        # assignment or a read in between, and to another region
+        for held in (1, 2):
+            for (h, w) in ((2, 6), (3, 5)):
+                for (r0, c0) in ((0, 1), (1, 0)):
+                    b1 = [srow("ab"), srow("cd")]
+                    for b2 in ([srow("xy"), srow("")], [srow("cd"), srow("ab")], [frow([[[97, 98], [2, 0, 0, 0, 0, 0, 0, 0]]]), srow("cd")],
+                               [srow("abcdefgh"), srow("c")], [srow("ab")], [srow("a"), srow("b"), srow("c")], [srow("ab"), srow("cd")]):
+                        reg = {"k": "assign", "r0": r0, "r1": r0 + 2, "c0": c0, "c1": c0 + 2, "bk": "list", "form": "slice2", "held": held}
+                        rd = {"k": "read", "r0": 0, "r1": h + 1, "c0": 0, "c1": w}
+                        yield {"h": h, "w": w, "fmt": 0, "steps": [dict(reg, block=b1), dict(reg, block=b2), rd]}
+                        yield {"h": h, "w": w, "fmt": 1, "steps": [dict(reg, block=b1), rd, dict(reg, block=b2), rd, dict(reg, block=b1), rd]}
+                        yield {"h": h, "w": w, "fmt": 0, "steps": [dict(reg, block=b1), dict(reg, block=b2, c0=c0 + 1, c1=c0 + 3), dict(reg, block=b1), rd]}
+                        yield {"h": h, "w": w, "fmt": 0, "steps": [dict(reg, block=b1), {"k": "assign", "r0": 0, "r1": 1, "c0": 0, "c1": 0, "block": [srow("")], "bk": "list", "form": "slice2"},
+                                                                 dict(reg, block=b2), rd]}
         # neighbouring rows with the same terminal string but different cells (a red 'a' next to a row whose TEXT is the
         # escape-coded rendering of a red 'a'), filled / cleared with [row] * n (one block row object used for both)
         red_a = {"k": "f", "v": [[[97], [2, 0, 0, 0, 0, 0, 0, 0]]]}
@@ -299,6 +315,7 @@ class C04(TraceCheck):
         def snap():
             return [enc.enc_fmtstr(r) if not isinstance(r, str) else [[enc.enc_text(r), list(PLAIN)]] for r in a.rows]
         ev = []
+        held_list, held_arr = [], []
         tr = {"h": hist["h"], "w": hist["w"], "fmt": hist["fmt"], "blank": blank, "rows0": snap(), "ev": ev}
         for st in hist["steps"]:
             rec = dict(st)
@@ -315,6 +332,22 @@ class C04(TraceCheck):
                     for j in range(1, len(block)):
                         if st["block"][j] == st["block"][j - 1]:
                             block[j] = block[j - 1]
+                if st.get("held"):
+                    # the application keeps ONE block object (a list of rows, or an FSArray) and updates it in place
+                    # between assignments: what is written is what the object holds at the time of the assignment
+                    if st["held"] == 1:
+                        held_list[:] = block
+                        block = held_list
+                    else:
+                        if not held_arr or st.get("rebuild"):
+                            held_arr[:] = [fsarray(block)]
+                        else:
+                            try:
+                                held_arr[0][0:len(block), 0:held_arr[0].width] = block
+                            except Exception:  # noqa
+                                held_arr[:] = [fsarray(block)]
+                        block = held_arr[0]
+                        rec["block"] = [enc.enc_value(r) for r in block]
                 if st.get("bk") == "self":
                     # the block is the target array itself (pasting an array into / below itself)
                     block = a
